@@ -67,7 +67,9 @@ def gen(rng, tier):
                            seed=rng.randrange(1000), nmask=rng.randint(0, 2), hit_fill=rng.random() < 0.05,
                            # a plain variable without any fill one of whose cells holds netCDF's default fill value of the
                            # type (a cell never written): read as masked, it has to stay masked through the second cycle
-                           hit_default=(how is None and dt not in 'bB' and rng.random() < 0.25)))
+                           hit_default=(how is None and dt not in 'bB' and rng.random() < 0.25),
+                           # nan / inf in cells of a masked float variable that are NOT masked: they are values
+                           naninf=(how is not None and dt in 'fd' and rng.random() < 0.2)))
         # the unlimited dimension needs a variable, otherwise netCDF cannot store its length
         for d in dims:
             if d[2] and not any(d[0] in v['dims'] for v in vs):
@@ -123,6 +125,10 @@ def build(case):
                     m.flat[(v['seed'] + 3 * k) % m.size] = True
             if v.get('hit_fill') and m.size > 1:
                 vals.flat[(v['seed'] + 1) % m.size] = v['fv']        # an unmasked cell that equals the fill
+            if v.get('naninf') and m.size > 1:
+                free = [j for j in range(m.size) if not m.flat[j]]
+                for j, x in zip(free[:2], [[np.nan, np.inf], [-np.inf, np.nan]][v['seed'] % 2]):
+                    vals.flat[j] = x
             arr = np.ma.masked_array(vals, mask=m)
             if how in ('fill_value', 'both_same', 'both_diff'):
                 var[...] = arr
@@ -175,7 +181,21 @@ DTN = {'float32': 'f4', 'float64': 'f8', 'int8': 'i1', 'int16': 'i2', 'int32': '
 
 
 def _num(x):
+    if isinstance(x, (float, np.floating)) and not np.isfinite(x):
+        return 'nan' if x != x else ('inf' if x > 0 else '-inf')        # outside the rationals of the model: oracle only
     return lib.show_rat(Fraction(float(x))) if isinstance(x, (float, np.floating)) else lib.show_rat(Fraction(int(x)))
+
+
+def _finite_only(text):
+    """the observation without the variables that hold nan / inf (the model's numbers are rationals)"""
+    toks = text.split(' ')
+    out = []
+    for t in toks:
+        if t.startswith('vars=') and t != 'vars=-':
+            keep = [v for v in t[5:].split(';') if not any(c in ('nan', 'inf', '-inf') for c in v.split('|')[-1].split(','))]
+            t = 'vars=' + (';'.join(keep) or '-')
+        out.append(t)
+    return ' '.join(out)
 
 
 def _ga(o, a):
@@ -304,7 +324,7 @@ def impl(case):
 def to_line(case, res):
     if case.get('kind') == 'big':
         return 'c07 nop'
-    return 'c07 rt %s %s' % (case['flavour'], res['src'])
+    return 'c07 rt %s %s' % (case['flavour'], _finite_only(res['src']))
 
 
 def _parse(text):
@@ -340,7 +360,11 @@ def agree(case, out, res):
         return None if out.startswith('err') else 'impl raised %s (%s), model %s' % (res['err'], res.get('msg'), out[:60])
     if not out.startswith('ok '):
         return 'model %s, impl saved and reopened' % out[:60]
-    d = _diff(_parse(out[3:]), _parse(res['out']))
+    fin = _finite_only(res['src'])
+    names = {v.split('|')[0] for v in fin.split('vars=')[1].split(' ')[0].split(';')} if 'vars=-' not in fin else set()
+    reopened = _parse(res['out'])
+    reopened['order'] = [k for k in reopened['order'] if k in names]
+    d = _diff(_parse(out[3:]), reopened)
     return ('model vs reopened: ' + d) if d else None
 
 
